@@ -94,4 +94,17 @@ CONF["C07"] = {
     "assumptions": ["strings compare up to the longest whole-character prefix that fits length-1 bytes; arrays up to the profile length"],
 }
 
+CONF["C04"] = {
+    "pkg": "c04",
+    "level": "fault_enumeration",
+    "exhaustive_claim": False,
+    "technique": "fault enumeration: every admissible bit position x burst patterns (<=16 bits) on rapid-generated valid files, judged by the CRC burst-detection theorem; generated header fields judged by an independent header verdict across all header-checking APIs",
+    "level_text": "Fault enumeration over valid files (Encode output and generated streams, 12/14 byte headers, stored header CRC set or zero): every bit position whose burst window avoids header byte 0 and bytes 4-7, crossed with 49 burst patterns per position (thorough: all 32768 patterns on four short files, 1000+ patterns elsewhere); Decode and CheckIntegrity must both fail, which a correct CRC-16 guarantees for any burst of at most 16 bits. Header verdicts: generated header fields with correct / zero / wrong CRC, six API calls must equal an independent verdict.",
+    "level_note": "Trusted: CRC-16 with a degree-16 generator detects every burst of length <= 16 (so a correct implementation has no excuse); harness bitwise CRC; the independent header verdict 'size 14 and stored != 0 and stored != CRC(first 12 bytes), or unsupported protocol major, or data type != .FIT'. Header sizes other than 12/14 are outside the domain of Header.CheckIntegrity here.",
+    "quick": {"checks": 24, "timeout": 400, "shrinktime": "10s"},
+    "thorough": {"checks": 400, "timeout": 2400, "shrinktime": "30s"},
+    "rule": "bursts: each rapid case draws one valid file (<= 700 bytes) and enumerates every admissible (bit position, burst pattern) pair on it: 16 solid runs, 15 end-points-only runs and 17 position-seeded patterns of length 3..16; each corrupted image is distinct (different error polynomial) and non-trivial (it differs from the valid file); counted by the enumerator, split by region (header, header/data boundary, records, data/crc boundary, file crc). bursts-all (thorough): all 32768 patterns with first and last bit set. headers: 100 generated headers per rapid case; non-trivial = 14-byte header with a wrong non-zero CRC; header-grid: sizes x 7 protocol bytes x 4 data types x 3 CRC modes.",
+    "assumptions": ["burst-error detection theorem for CRC-16 (generator x^16+x^15+x^2+1 has a non-zero constant term)"],
+}
+
 NOT_APPLICABLE = {}
